@@ -902,6 +902,45 @@ def _x_cancel_reduce(draw, og):
     return {"args": [P(a)], "kw": {"how": draw(st.sampled_from(["sum", "derivative", "index", "mul"]))}}
 
 
+@extra("construct-monomial")
+def _x_monomial(draw, og):
+    dims = draw(st.integers(1, 3))
+    stop = draw(st.integers(1, 4))
+    start = draw(st.integers(0, stop))
+    return {"args": [], "kw": {"start": start, "stop": stop, "dimensions": dims,
+                               "graded": draw(st.booleans()), "reverse": draw(st.booleans()),
+                               "cross_truncation": draw(st.sampled_from([1.0, 1.0, 2.0, 0.5]))}}
+
+
+@extra("construct-variable")
+def _x_variable(draw, og):
+    return {"args": [], "kw": {"dimensions": draw(st.integers(1, 4)),
+                               "dtype": draw(st.sampled_from(["int64", "float64", "complex128"]))}}
+
+
+@extra("construct-symbols")
+def _x_symbols(draw, og):
+    return {"args": [], "kw": {"names": draw(st.sampled_from(["q0", "q3", "q0:3", "q1,q10", "q2 q5 q7", "q:2"]))}}
+
+
+@extra("construct-dict")
+def _x_dict(draw, og):
+    a = og.array(draw, max_ndim=2)
+    return {"args": [P(a)], "kw": {}}
+
+
+@extra("construct-nested-list")
+def _x_nested(draw, og):
+    a = og.array(draw, min_ndim=1, max_ndim=2)
+    return {"args": [P(a)], "kw": {"depth": draw(st.integers(1, 2))}}
+
+
+@extra("construct-roots")
+def _x_roots(draw, og):
+    n = draw(st.integers(1, 4))
+    return {"args": [], "kw": {"roots": draw(st.lists(st.integers(-3, 3), min_size=n, max_size=n))}}
+
+
 @extra("gradient")
 def _x_gradient(draw, og):
     return {"args": [P(og.array(draw, max_ndim=2))], "kw": {}}
@@ -962,11 +1001,24 @@ def invoke_extra(name, args, kw):
 
     import numpoly
 
-    p = args[0]
+    p = args[0] if args else None
     if name == "call-partial":
         return p(**kw["values"])
     if name == "derivative":
         return numpoly.derivative(p, *kw["vars"])
+    if name == "construct-monomial":
+        return numpoly.monomial(**kw)
+    if name == "construct-variable":
+        return numpoly.variable(kw["dimensions"], dtype=kw["dtype"])
+    if name == "construct-symbols":
+        return numpoly.symbols(kw["names"])
+    if name == "construct-dict":
+        return numpoly.polynomial(p.todict(), names=p.names)
+    if name == "construct-nested-list":
+        items = [x for x in p] if kw["depth"] == 1 or p.ndim < 2 else [[y for y in x] for x in p]
+        return numpoly.polynomial(items)
+    if name == "construct-roots":
+        return numpoly.polynomial_from_roots(kw["roots"])
     if name == "cancel-then-call":
         return (p - p)(**kw["values"])
     if name == "cancel-then-reduce":
